@@ -1,7 +1,8 @@
 """Per-property decision procedures (DESIGN.md section 4)."""
 import json, os, subprocess, sys
 from .core import Run, Infra, VERIF, from_cps
-from .families import Family, BASES_ALL, BASES_MAIN, filler_letter, filler_digit, filler_nonascii, rng
+from .families import (Family, ApiFamily, BASES_ALL, BASES_MAIN, filler_letter, filler_digit, filler_nonascii, rng,
+                       SETTER_VALUES, ALL_SETTER_OPS, STARTS_ALL, sub_ops)
 from . import findings
 
 
@@ -31,7 +32,7 @@ def absorb(run, M, S, family, prop_filter=None):
         run.violation("the real code did not return on a behaviour of family %s: %s" % (family, S["hang"][:300]), {"family": family, "hang": S["hang"]}, "hang")
         return
     total = S.get("mismatches", 0)
-    seen_known = set()
+    seen_known = run.__dict__.setdefault("_seen_known", set())
     nviol = 0
     for m in M:
         if prop_filter and not prop_filter(m):
@@ -107,6 +108,216 @@ def check_c01(run):
     return run.finish("model_checking", "every string over a family alphabet (the characters the parser states branch on) up to the family bound, "
                       "times every base of the family; one TLC step per parser-loop iteration; a case is distinct by its expected outcome "
                       "(expected serialization, or failure); distinct_nontrivial counts distinct expected outcomes")
+
+
+def run_api_families(run, fams, keys="all", spmodes="late,early", params=True, workers=None):
+    for fam in fams:
+        mod = fam.write(run.scratch)
+        args = ["--keys", keys, "--spmodes", spmodes] + ([] if params else ["--params=false"])
+        S, M, st = run.tlc_replay(mod, fam.name, cfg=mod + ".cfg", replay_args=args, workers=workers)
+        absorb(run, M, S, fam.name)
+
+
+# --------------------------------------------------------------------------------------------
+# C05 - setters implement the standard's setter algorithms
+# --------------------------------------------------------------------------------------------
+def setter_families(run, with_rt=False, inv=("AllWellFormed", "AllGettersOk")):
+    q = run.tier == "quick"
+    r = rng(run.seed, "starts")
+    fams = [
+        ApiFamily("set_d1_full", STARTS_ALL, ALL_SETTER_OPS, depth=2, invariants=inv, with_rt=with_rt),
+        ApiFamily("set_d2_sub", STARTS_ALL, sub_ops(run.seed, "d2", 3 if q else 6), depth=3, invariants=inv, with_rt=with_rt),
+        ApiFamily("set_closure", r.sample(STARTS_ALL, 3 if q else 6) + ["http://u:p@h:8/a/b?q#f"], sub_ops(run.seed, "cl", 2 if q else 3),
+                  mode="closure", invariants=inv, with_rt=with_rt),
+    ]
+    if not q:
+        fams.append(ApiFamily("set_d3_sub", r.sample(STARTS_ALL, 8), sub_ops(run.seed, "d3", 2), depth=4, invariants=inv, with_rt=with_rt))
+    return fams
+
+
+def check_c05(run):
+    run.build_harness()
+    run.selftest()
+    run_api_families(run, setter_families(run), keys="std", spmodes="late")
+    run.assumptions.append("histories over the value alphabets of DESIGN.md 4/C05 (chosen to hit every guard and early return of each setter); arbitrary string values only through recorded random traces")
+    return run.finish("model_checking", "all setter histories up to the tree depth over the value alphabets x 17 start URLs, plus the closure of the URL "
+                      "records under a seed-chosen op sub-alphabet (every transition replayed as path-to-source + op); a case is distinct by the "
+                      "expected state of all handles after the last step")
+
+
+REFS = ["", "#f", "?q", "a", "/a", "//h2/x", "../..", "x:o", "\\a", "http:b", "file:c", ".", "C|/z", "//1.2.3.4:0", "?", "#"]
+SP_NAMES = ["", "a", "b", "a&b", "c=d", "+", " ", "%", "%41", "\u00e9", "#", "~", "a b"]
+SP_VALUES = ["", "1", "x y", "&", "=", "+", "%2B", "\u00e9", "'", "#"]
+SP_STARTS = ["http://h/?b=2&a=1&b=3", "http://h/p", "x:o?a=1", "http://h/?a+b=c%20d&&=x", "x://h/?%41=%2B&a=1%2B1", "m:o ?q#f", "http://h/?", "http://h/?a=1#f"]
+
+
+def sp_ops(names, values, with_sort=True):
+    ops = [("append", n, v) for n in names for v in values] + [("set", n, v) for n in names for v in values] + [("delete", n, "") for n in names]
+    if with_sort:
+        ops += [("sort", "", ""), ("sortabs", "", "")]
+    return ops
+
+
+def history_families(run, with_rt=False):
+    """Setters + resolve + clone over three handles (C04 / C19 / C13 share these shapes)."""
+    q = run.tier == "quick"
+    r = rng(run.seed, "hist")
+    inv = ("AllWellFormed", "AllGettersOk")
+    host_port_ops = [(n, v) for n in ("host", "hostname", "port", "protocol") for v in SETTER_VALUES[n]]
+    fams = [
+        ApiFamily("res_d2", STARTS_ALL, sub_ops(run.seed, "res", 1), refs=REFS, depth=3, nh=3, clone=True, invariants=inv, with_rt=with_rt),
+        ApiFamily("hostport_d2", ["http://1.2.3.4/", "http://h:0/", "https://[::1]:443/", "x://1.2.3.4:80/", "ws://u@h:81/p", "file://h/"],
+                  host_port_ops if not q else r.sample(host_port_ops, 18), refs=["/x", "//5.6.7.8", "?q", "//[::2]:0/", "x:o"], depth=3, nh=2, clone=True,
+                  invariants=inv, with_rt=with_rt),
+        ApiFamily("hist_closure", r.sample(STARTS_ALL, 2 if q else 4), sub_ops(run.seed, "hcl", 1), refs=r.sample(REFS, 3), mode="closure", nh=2,
+                  clone=True, invariants=inv, with_rt=with_rt),
+    ]
+    return fams
+
+
+# --------------------------------------------------------------------------------------------
+# C03 - serialize-then-parse is the identity
+# --------------------------------------------------------------------------------------------
+def check_c03(run):
+    run.build_harness()
+    run.selftest()
+    fams = c01_families(run)
+    for f in fams:
+        f.invariants.append("RoundTripInv")     # design: the standard round-trips on every parser output of the family
+    keep = {"struct", "host", "path", "file", "class", "brackets", "dotdeep"} if run.tier == "quick" else None
+    for fam in fams:
+        if keep and fam.name not in keep:
+            continue
+        if run.tier == "quick" and fam.name == "struct":
+            fam.maxlen = 3
+        mod = fam.write(run.scratch)
+        S, M, st = run.tlc_replay(mod, fam.name, cfg=mod + ".cfg", replay_args=["--keys", "std", "--reparse", "--entries", "Parse,UrlParse"])
+        absorb(run, M, S, fam.name)
+    # after setters: the expected state carries the expected re-parse (the standard's own exceptions are computed, not hard-coded)
+    run_api_families(run, setter_families(run, with_rt=True), keys="std", spmodes="late")
+    run.assumptions.append("the standard's own non-round-tripping states (file + non-normalized drive letter, file://localhost via protocol setter) are computed by the specification per state; the code must then behave exactly as the standard does")
+    return run.finish("model_checking", "every terminal state of the parse families is re-parsed on the real code (identity demanded; TLC checks the same "
+                      "invariant on the specification), and every state of the setter trees/closure carries the specification's expected re-parse "
+                      "result; a case is distinct by expected outcome")
+
+
+# --------------------------------------------------------------------------------------------
+# C04 - well-formed record, coherent getters
+# --------------------------------------------------------------------------------------------
+def check_c04(run):
+    run.build_harness()
+    run.selftest()
+    run_api_families(run, setter_families(run) + history_families(run), keys="shape", spmodes="late")
+    fams = [f for f in c01_families(run) if f.name in ("struct", "class", "host")]
+    for f in fams:
+        f.invariants += ["WellFormedInv", "GettersInv"]
+        if f.name == "struct" and run.tier == "quick":
+            f.maxlen = 3
+    run_parse_families(run, fams, keys="shape")
+    run.assumptions.append("WellFormed/Composition/Derived are TLC invariants on every reachable specification state; the code is held to them through equality of the full projection (19 getters) with the specification state")
+    return run.finish("model_checking", "closure and bounded trees of the object machine (setters, resolve of further references, clone) plus parse families; "
+                      "TLC checks WellFormed, ComponentsOk, CompositionG, DerivedG on every state; every state is replayed and all 19 getters compared; "
+                      "distinct = distinct expected final states")
+
+
+# --------------------------------------------------------------------------------------------
+# C19 - derived accessors agree with the primary components
+# --------------------------------------------------------------------------------------------
+def check_c19(run):
+    run.build_harness()
+    run.selftest()
+    run_api_families(run, history_families(run) + setter_families(run)[:2], keys="derived,hostname,port,href", spmodes="late")
+    fams = [f for f in c01_families(run) if f.name in ("host", "ipv4deep", "brackets")]
+    for f in fams:
+        f.invariants += ["GettersInv"]
+    run_parse_families(run, fams, keys="derived,hostname,port,href")
+    return run.finish("model_checking", "the derived accessors are functions of the primary components in the specification (DerivedG checked by TLC on "
+                      "every state); histories of parse / resolve / setter / clone are replayed and IsIPv4, IsIPv6, DecodedPort, Scheme, Query, Fragment, "
+                      "OpaquePath, IsSpecialScheme, Href(true) compared after every step; distinct = distinct expected final states")
+
+
+# --------------------------------------------------------------------------------------------
+# C11 / C12 / C13 - SearchParams, synchronisation, independence
+# --------------------------------------------------------------------------------------------
+def sp_families(run):
+    q = run.tier == "quick"
+    r = rng(run.seed, "sp")
+    names = r.sample(SP_NAMES, 4 if q else 6)
+    values = r.sample(SP_VALUES, 3 if q else 4)
+    reads = [(o, n) for o in ("get", "getall", "has") for n in names]
+    L = filler_letter(run.seed)
+    fams = [
+        ApiFamily("sp_d2", SP_STARTS, sp_ops=sp_ops(names, values), read_ops=reads, depth=3, invariants=("ListRoundTrip",)),
+        ApiFamily("sp_full_d1", SP_STARTS, sp_ops=sp_ops(SP_NAMES, SP_VALUES), read_ops=[(o, n) for o in ("get", "getall", "has") for n in SP_NAMES], depth=2,
+                  invariants=("ListRoundTrip",)),
+        ApiFamily("sp_closure", ["http://h/?b=2&a=1&b=3", "x:o?a=1"], sp_ops=sp_ops(names[:3], values[:2]), mode="closure", invariants=("ListRoundTrip",)),
+    ]
+    return fams
+
+
+def check_c11(run):
+    run.build_harness()
+    run.selftest()
+    fams = sp_families(run)
+    # pinned reproducer of finding F03 (re-run on every invocation) and the law on delimiter-free lists
+    fams.append(ApiFamily("sp_pinned_F03", ["http://h/p"], sp_ops=[("append", "a&b", "c=d"), ("append", "a", "1 1"), ("append", "x", "1+1")], depth=2, with_law=True))
+    for f in fams:
+        f.with_law = True
+    run_api_families(run, fams, keys="href,query,search")
+    # urlencoded parsing of query strings: every query over the delimiter alphabet, list read back through the snapshot
+    import itertools
+    L = filler_letter(run.seed)
+    alpha = [L, "=", "&", "+", "%", "4", "1", "2", "B", "\u00e9", "\udcff", "\udc80"]
+    n = 3 if run.tier == "quick" else 4
+    starts = ["http://h/?" + "".join(w) for k in range(0, n + 1) for w in itertools.product(alpha, repeat=k)]
+    deep = ["x:o?" + "".join(w) for k in range(0, 7 if run.tier == "quick" else 9) for w in itertools.product("a=&", repeat=k)]
+    run_api_families(run, [ApiFamily("formparse", starts, depth=1, with_law=True), ApiFamily("formparse_deep", deep, depth=1, with_law=True)],
+                     keys="href,query,search", spmodes="early")
+    run.assumptions += ["invalid UTF-8 bytes in a stored name/value count as U+FFFD, one per byte (only bytes 0x80 and 0xFF are generated, where Go's per-byte "
+                        "rule and the standard's maximal-subpart rule agree)",
+                        "the library's serializer is modelled as the named deviation ImplQueryEscape (query percent-encode set, space -> '+'); its bytes are "
+                        "not compared with the standard's serializer - the codec law parse(serialize(list)) = list is what C11 demands"]
+    return run.finish("model_checking", "list machine: closure and bounded trees over append/delete/set/sort/sortAbsolute with delimiter-bearing names and "
+                      "values, readers get/getAll/has in every state, lists parsed from every query over the delimiter alphabet; stored list "
+                      "(snapshot hook), reader results, Href and the codec law on the real code compared after every step in both handle modes")
+
+
+def check_c12(run):
+    run.build_harness()
+    run.selftest()
+    q = run.tier == "quick"
+    r = rng(run.seed, "c12")
+    names = r.sample(SP_NAMES, 3)
+    values = r.sample(SP_VALUES, 2)
+    setters = [("search", v) for v in SETTER_VALUES["search"]] + [("hash", ""), ("hash", "f"), ("protocol", "https"), ("protocol", "y"), ("pathname", "/n"), ("host", "h9")]
+    starts = ["http://h/?b=2&a=1", "x://h/p?a=1#f", "m:o  ?q", "m:o  #f", "http://h/p", "file:///d?x"]
+    fams = [
+        ApiFamily("sync_d3", starts, setter_ops=setters, sp_ops=sp_ops(names, values), depth=3 if q else 4, properties=("WriteThrough",)),
+        ApiFamily("sync_closure", starts[:3], setter_ops=r.sample(setters, 6), sp_ops=sp_ops(names[:2], values[:2]), mode="closure", properties=("WriteThrough",)),
+    ]
+    run_api_families(run, fams, keys="href,query,search,pathname,hash")
+    return run.finish("model_checking", "all interleavings (bounded trees and closure) of SearchParams mutations, SetSearch and the other setters from "
+                      "special / non-special / opaque starts; after every step Href, Query, Search and the stored list are compared with the specification, "
+                      "with the SearchParams handle taken before the first call (early) and afresh (late)")
+
+
+def check_c13(run):
+    run.build_harness()
+    run.selftest()
+    q = run.tier == "quick"
+    r = rng(run.seed, "c13")
+    names = r.sample(SP_NAMES, 2)
+    values = r.sample(SP_VALUES, 2)
+    setters = sub_ops(run.seed, "c13", 1)
+    starts = ["http://u:p@h:8/a/b?q=1#f", "x://h/a?b=2", "file:///C:/d?x", "m:o?a=1"]
+    fams = [
+        ApiFamily("indep_d3", starts, setter_ops=setters, sp_ops=sp_ops(names, values, with_sort=False) + [("sort", "", "")], refs=["x", "?n=1", "#g", "//o/p?r"],
+                  depth=3 if q else 4, nh=3, clone=True, properties=("Independence",)),
+    ]
+    run_api_families(run, fams, keys="all")
+    return run.finish("model_checking", "three handles: parse, resolve, clone, then any setter / SearchParams mutation on either side; after every call "
+                      "ALL live handles are projected (19 getters + stored parameter list) and compared with the specification, in which an action changes "
+                      "only the handle it acts on (Independence action property)")
 
 
 def replay_file(prop, path):
